@@ -76,7 +76,8 @@ def main() -> int:
             items.append((p, os.path.basename(p).split("-")[0]))
     if a.only:
         only = set(a.only.split(","))
-        items = [(p, pr) for p, pr in items if pr in only or os.path.basename(os.path.dirname(p)) in only]
+        items = [(p, pr) for p, pr in items if pr in only or os.path.basename(os.path.dirname(p)) in only
+                 or os.path.basename(p)[:-6] in only]
     workers = max(2, 16 // a.jobs)
     out = []
     with cf.ThreadPoolExecutor(max_workers=a.jobs) as ex:
